@@ -19,21 +19,26 @@ def py_pad(lst, target, clip, none):
 
 
 # ------------------------------------------------------------------------------------------------ node builders
-def build_listoffset64(nc, lens, name='node'):
-    """ListOffsetArray64 over the opaque content, offsets[0] symbolic >= 0, list lengths concrete"""
+WIDTHS = {'64': ('l', 64, False), '32': ('i', 32, False), 'U32': ('j', 32, True)}
+
+
+def build_listoffset64(nc, lens, name='node', width='64'):
+    """ListOffsetArray of the given offsets width over the opaque content, offsets[0] symbolic >= 0, list lengths concrete"""
+    T, bits, uns = WIDTHS[width]
     n = len(lens)
-    fo, sz, al, fields = nc.layout_of('LOA', '_ZNK7awkward17ListOffsetArrayOfIlE6lengthEv')
+    fo, sz, al, fields = nc.layout_of('LOA', '_ZNK7awkward17ListOffsetArrayOfI%sE6lengthEv' % T)
     first = nc.m.bv(name + '_off0')
-    arr = z3.K(z3.BitVecSort(64), BV(0))
+    arr = z3.K(z3.BitVecSort(64), z3.BitVecVal(0, bits))
     offs = [first]
     for L in lens:
         offs.append(offs[-1] + L)
     for i, o in enumerate(offs):
-        arr = z3.Store(arr, BV(i), o)
-    data = nc.m.array(name + '_offsets', ('i', 64), n + 1, const=True, arr=arr)
-    nc.m.assume(first >= 0, first <= 2 ** 40, offs[-1] <= nc.lencontent)
-    cells = nc.content_header(name, nc.vptr_of('N7awkward17ListOffsetArrayOfIlEE', 'LOA'))
-    nc.index_cells(cells, fo[1], data, BV(0), BV(n + 1))
+        arr = z3.Store(arr, BV(i), o if bits == 64 else z3.Extract(bits - 1, 0, o))
+    data = nc.m.array(name + '_offsets', ('i', bits), n + 1, const=True, arr=arr)
+    top = 2 ** 40 if bits == 64 else (2 ** 31 - 1 if not uns else 2 ** 32 - 1) - sum(lens)
+    nc.m.assume(first >= 0, first <= top, offs[-1] <= nc.lencontent)
+    cells = nc.content_header(name, nc.vptr_of('N7awkward17ListOffsetArrayOfI%sEE' % T, 'LOA'))
+    nc.index_cells(cells, fo[1], data, BV(0), BV(n + 1), mangled_T=T)
     cells.update({fo[2]: (nc.content0, 8), fo[2] + 8: (NULL, 8), fo[3]: (BV(0, 8), 1)})
     this = nc.m.record(name, cells, const=True)
     lists = [[Elem(z3.simplify(offs[i] + j)) for j in range(L)] for i, L in enumerate(lens)]
@@ -396,7 +401,27 @@ def h_option_flatten(pattern, deep):
                       extra=dict(bounds='%d entries, missing pattern concrete (case split), index values symbolic, inner list lengths <= 2 (uninterpreted)' % n))
 
 
+def widen(jobs, tier):
+    """the same harnesses over the 32-bit and unsigned 32-bit specialisations of the list classes (every job in the thorough tier, one in four in
+    the quick tier): the template branches that differ per index width are C++ code of their own"""
+    extra = []
+    for k, (fn, args, lim) in enumerate(jobs):
+        if args and isinstance(args[0], str) and args[0] in ('ListOffsetArray64', 'ListArray64') and fn.__name__ not in WIDEN_SKIP:
+            for w in ('32', 'U32'):
+                if tier == 'quick' and (k + (w == 'U32')) % 4:
+                    continue
+                extra.append((fn, (args[0][:-2] + w,) + tuple(args[1:]), lim))
+    return jobs + extra
+
+
+WIDEN_SKIP = set()
+
+
 def jobs_for(prop, tier):
+    return widen(_jobs_for(prop, tier), tier)
+
+
+def _jobs_for(prop, tier):
     if prop == 'C01':
         return jobs_c01(tier) + jobs_carry(tier) + jobs_numpy_getitem(tier) + jobs_option_getitem(tier) + jobs_ellipsis(tier) + jobs_missing(tier) + jobs_advanced(tier)
     if prop == 'C05':
@@ -433,21 +458,24 @@ def empty_tail_and_advanced(nc):
 LIST_GETITEM_KERNELS = []
 
 
-def build_list64(nc, lens, name='node'):
-    """ListArray64 over the opaque content: starts symbolic (any order, gaps, overlaps), stops = starts + the concrete lengths"""
+def build_list64(nc, lens, name='node', width='64'):
+    """ListArray of the given index width over the opaque content: starts symbolic (any order, gaps, overlaps), stops = starts + the concrete lengths"""
+    T, bits, uns = WIDTHS[width]
     n = len(lens)
-    fo, sz, al, fields = nc.layout_of('LA', '_ZNK7awkward11ListArrayOfIlE6lengthEv')
-    a0 = z3.Array(name + '_starts', z3.BitVecSort(64), z3.BitVecSort(64))
-    starts = [z3.Select(a0, BV(i)) for i in range(n)]
-    sarr = z3.K(z3.BitVecSort(64), BV(0))
+    fo, sz, al, fields = nc.layout_of('LA', '_ZNK7awkward11ListArrayOfI%sE6lengthEv' % T)
+    a0 = z3.Array(name + '_starts', z3.BitVecSort(64), z3.BitVecSort(bits))
+    raw = [z3.Select(a0, BV(i)) for i in range(n)]
+    starts = [r if bits == 64 else (z3.ZeroExt(64 - bits, r) if uns else z3.SignExt(64 - bits, r)) for r in raw]
+    sarr = z3.K(z3.BitVecSort(64), z3.BitVecVal(0, bits))
+    top = 2 ** 40 if bits == 64 else (2 ** 31 - 1 if not uns else 2 ** 32 - 1)
     for i, L in enumerate(lens):
-        sarr = z3.Store(sarr, BV(i), starts[i] + L)
-        nc.m.assume(starts[i] >= 0, starts[i] <= 2 ** 40, starts[i] + L <= nc.lencontent)
-    d1 = nc.m.array(name + '_starts', ('i', 64), n, const=True)
-    d2 = nc.m.array(name + '_stops', ('i', 64), n, const=True, arr=sarr)
-    cells = nc.content_header(name, nc.vptr_of('N7awkward11ListArrayOfIlEE', 'LA'))
-    nc.index_cells(cells, fo[1], d1, BV(0), BV(n))
-    nc.index_cells(cells, fo[2], d2, BV(0), BV(n))
+        sarr = z3.Store(sarr, BV(i), raw[i] + L)
+        nc.m.assume(starts[i] >= 0, starts[i] <= top - L, starts[i] + L <= nc.lencontent)
+    d1 = nc.m.array(name + '_starts', ('i', bits), n, const=True)
+    d2 = nc.m.array(name + '_stops', ('i', bits), n, const=True, arr=sarr)
+    cells = nc.content_header(name, nc.vptr_of('N7awkward11ListArrayOfI%sEE' % T, 'LA'))
+    nc.index_cells(cells, fo[1], d1, BV(0), BV(n), mangled_T=T)
+    nc.index_cells(cells, fo[2], d2, BV(0), BV(n), mangled_T=T)
     cells.update({fo[3]: (nc.content0, 8), fo[3] + 8: (NULL, 8)})
     this = nc.m.record(name, cells, const=True)
     lists = [[Elem(z3.simplify(starts[i] + j)) for j in range(L)] for i, L in enumerate(lens)]
@@ -456,14 +484,16 @@ def build_list64(nc, lens, name='node'):
 
 def list_node(nc, cls, lens):
     """-> (this, lists, start term of each list, origin terms for `prefer`, short mangled class name)"""
-    if cls == 'ListOffsetArray64':
-        this, lists, offs = build_listoffset64(nc, list(lens))
-        nc.node_info = dict(cls=cls, offs=offs, lens=list(lens))
-        return this, lists, offs[:-1], offs, '17ListOffsetArrayOfIlE'
-    if cls == 'ListArray64':
-        this, lists, starts = build_list64(nc, list(lens))
-        nc.node_info = dict(cls=cls, starts=starts, lens=list(lens))
-        return this, lists, starts, (starts or [BV(0)]) + [nc.lencontent], '11ListArrayOfIlE'
+    if cls.startswith('ListOffsetArray'):
+        w = cls[len('ListOffsetArray'):]
+        this, lists, offs = build_listoffset64(nc, list(lens), width=w)
+        nc.node_info = dict(cls=cls, offs=offs, lens=list(lens), width=w)
+        return this, lists, offs[:-1], offs, '17ListOffsetArrayOfI%sE' % WIDTHS[w][0]
+    if cls.startswith('ListArray'):
+        w = cls[len('ListArray'):]
+        this, lists, starts = build_list64(nc, list(lens), width=w)
+        nc.node_info = dict(cls=cls, starts=starts, lens=list(lens), width=w)
+        return this, lists, starts, (starts or [BV(0)]) + [nc.lencontent], '11ListArrayOfI%sE' % WIDTHS[w][0]
     if cls == 'RegularArray':
         size, length = lens
         this, lists = build_regular(nc, size, length)
@@ -480,13 +510,17 @@ def node_program(nc, model, lc):
     """akrun program building the replayed node over content [0, 1, ...) and its Python value"""
     info = nc.node_info
     ev = lambda t: model.eval(t, model_completion=True).as_signed_long()
-    if info['cls'] == 'ListOffsetArray64':
+    if info['cls'].startswith('ListOffsetArray'):
         ov = [ev(o) for o in info['offs']]
-        return 'i64 %s listoffset64 %s ' % (fullnative.ints(range(max(lc, ov[-1]))), fullnative.ints(ov)), [list(range(ov[i], ov[i + 1])) for i in range(len(ov) - 1)]
-    if info['cls'] == 'ListArray64':
+        if ov[-1] > 5000:
+            raise Unsupported('offsets too large to replay')
+        return 'i64 %s listoffset%s %s ' % (fullnative.ints(range(max(lc, ov[-1]))), info.get('width', '64'), fullnative.ints(ov)), [list(range(ov[i], ov[i + 1])) for i in range(len(ov) - 1)]
+    if info['cls'].startswith('ListArray'):
         sv = [ev(x) for x in info['starts']]
         tv = [a + L for a, L in zip(sv, info['lens'])]
-        return 'i64 %s list64 %d %s %s ' % (fullnative.ints(range(max([lc] + tv))), len(sv), ' '.join(map(str, sv)), ' '.join(map(str, tv))), [list(range(a, b)) for a, b in zip(sv, tv)]
+        if max([0] + tv) > 5000:
+            raise Unsupported('starts too large to replay')
+        return 'i64 %s list%s %d %s %s ' % (fullnative.ints(range(max([lc] + tv))), info.get('width', '64'), len(sv), ' '.join(map(str, sv)), ' '.join(map(str, tv))), [list(range(a, b)) for a, b in zip(sv, tv)]
     size, length = info['size'], info['length']
     lc = max(lc, size * length)
     if size > 0:
@@ -788,7 +822,7 @@ def build_unmasked(nc, n, name='node'):
 
 def any_node(nc, cls, dims):
     """-> (this, nested value, short mangled name, replay(model, lc) -> (program head, python value))"""
-    if cls in ('ListOffsetArray64', 'ListArray64', 'RegularArray'):
+    if cls == 'RegularArray' or cls.startswith('ListOffsetArray') or cls.startswith('ListArray'):
         this, lists, starts, offs, short = list_node(nc, cls, dims)
         return this, lists, short, (lambda model, lc: node_program(nc, model, lc))
     if cls == 'UnmaskedArray':
@@ -874,6 +908,7 @@ def build_bitmasked(nc, pattern, valid_when, lsb, name='node'):
 
 OPTION_CLASSES = {
     'IndexedOptionArray64': ('14IndexedArrayOfIlLb1EE', 'IA'),
+    'IndexedOptionArray32': ('14IndexedArrayOfIiLb1EE', 'IA'),
     'ByteMaskedArray': ('15ByteMaskedArray', 'BMA'),
     'BitMaskedArray': ('14BitMaskedArray', 'BIT'),
     'UnmaskedArray': ('13UnmaskedArray', 'UMA'),
@@ -900,10 +935,10 @@ def h_option_below(cls, pattern, variant, meth):
     nc = NodeCtx(['IA', 'BMA', 'BIT', 'UMA', 'IDX', 'CNT', 'UTL', 'KD', 'IDS', 'NA'], [], unwind=max(10, 2 * n + 10))
     mm, frag, extra = BELOW_METHODS[meth]
     F = nc.derived_stub(frag, meth)
-    if cls == 'IndexedOptionArray64':
-        this, idx = build_option64(nc, pattern)
+    if cls in ('IndexedOptionArray64', 'IndexedOptionArray32'):
+        this, idx = build_option64(nc, pattern) if cls.endswith('64') else build_indexed(nc, cls, pattern, nc.content0, nc.lencontent, 'node')
         atom = lambda i: idx[i]
-        head = lambda model, lc: 'option64 %s ' % fullnative.ints([model.eval(x, model_completion=True).as_signed_long() for x in idx])
+        head = lambda model, lc: 'option%s %s ' % (cls[-2:], fullnative.ints([model.eval(x, model_completion=True).as_signed_long() for x in idx]))
         which = lambda model: [model.eval(x, model_completion=True).as_signed_long() for x in idx]
     elif cls == 'ByteMaskedArray':
         this, mk = build_bytemasked(nc, pattern, variant)
@@ -987,6 +1022,8 @@ def jobs_option_below(tier):
     for meth in BELOW_METHODS:
         for p in pats:
             js.append((h_option_below, ('IndexedOptionArray64', p, None, meth), 1800))
+            if tier != 'quick' or p == pats[0]:
+                js.append((h_option_below, ('IndexedOptionArray32', p, None, meth), 1800))
             for vw in (True, False):
                 js.append((h_option_below, ('ByteMaskedArray', p, vw, meth), 1800))
             for vw, lsb in ((True, True), (False, False)) if tier == 'quick' else itertools.product((True, False), repeat=2):
@@ -1414,7 +1451,7 @@ def h_convert(cls, dims, variant, meth, extra, kind):
     missing entries): the nested-list value of the result equals that of the receiver"""
     nc = NodeCtx(['LOA', 'LA', 'RA', 'IA', 'BMA', 'BIT', 'UMA', 'IDX', 'CNT', 'UTL', 'KD', 'IDS'], [], unwind=max(12, 3 * sum(dims) + 3 * len(dims) + 10))
     head_of = None
-    if cls in ('ListOffsetArray64', 'ListArray64', 'RegularArray'):
+    if cls == 'RegularArray' or cls.startswith('ListOffsetArray') or cls.startswith('ListArray'):
         this, vals, short, rp = any_node(nc, cls, dims)
         lens0 = node_lens(cls, dims)
     elif cls == 'IndexedOptionArray64':
@@ -1635,7 +1672,7 @@ def jobs_c10(tier):
 # ------------------------------------------------------------------------------------------------ C01 / C02: carry and ranges on every node class
 def generic_node(nc, cls, dims, variant=None):
     """-> (this, nested value, short mangled class name, replay head builder)"""
-    if cls in ('ListOffsetArray64', 'ListArray64', 'RegularArray', 'UnmaskedArray', 'IndexedOptionArray64'):
+    if cls in ('RegularArray', 'UnmaskedArray', 'IndexedOptionArray64') or cls.startswith('ListOffsetArray') or cls.startswith('ListArray'):
         return any_node(nc, cls, dims)
     pat = tuple(map(bool, dims))
     if cls == 'ByteMaskedArray':
@@ -2978,12 +3015,14 @@ def _build_list_operand(nc, k, cls, dims):
     nc.content0, nc.lencontent = cp, clen
     try:
         name = 'node%d' % k
-        if cls == 'ListOffsetArray64':
-            this, lists, offs = build_listoffset64(nc, list(dims), name=name)
-            info = dict(cls=cls, offs=offs, lens=list(dims))
-        elif cls == 'ListArray64':
-            this, lists, starts = build_list64(nc, list(dims), name=name)
-            info = dict(cls=cls, starts=starts, lens=list(dims))
+        if cls.startswith('ListOffsetArray'):
+            w = cls[len('ListOffsetArray'):]
+            this, lists, offs = build_listoffset64(nc, list(dims), name=name, width=w)
+            info = dict(cls=cls, offs=offs, lens=list(dims), width=w)
+        elif cls.startswith('ListArray'):
+            w = cls[len('ListArray'):]
+            this, lists, starts = build_list64(nc, list(dims), name=name, width=w)
+            info = dict(cls=cls, starts=starts, lens=list(dims), width=w)
         else:
             this, lists = build_regular(nc, dims[0], dims[1], name=name)
             info = dict(cls=cls, size=dims[0], length=dims[1])
@@ -3015,7 +3054,8 @@ def h_list_mergemany(specs):
     nb = 16 * (len(nodes) - 1)
     others = nc.m.record('others', {0: (Ptr('othersbuf', 0), 8), 8: (Ptr('othersbuf', nb), 8), 16: (Ptr('othersbuf', nb), 8)}, const=True)
     nc.m.record('ret', {})
-    short = {'ListOffsetArray64': '17ListOffsetArrayOfIlE', 'ListArray64': '11ListArrayOfIlE', 'RegularArray': '12RegularArray'}[specs[0][0]]
+    c0 = specs[0][0]
+    short = '12RegularArray' if c0 == 'RegularArray' else ('17ListOffsetArrayOfI%sE' % WIDTHS[c0[len('ListOffsetArray'):]][0] if c0.startswith('ListOffsetArray') else '11ListArrayOfI%sE' % WIDTHS[c0[len('ListArray'):]][0])
     cands = [f for mod_ in nc.m.eng.mods for f in mod_.func_src if f.startswith('_ZNK7awkward%s9mergemanyE' % short)]
     if not cands:
         raise Unsupported('mergemany not found in the IR')
@@ -3036,14 +3076,14 @@ def h_list_mergemany(specs):
                 return False, 'content too long to replay', {}
             vals = [1000 * k + j for j in range(lc)]
             prog += 'i64 %s ' % fullnative.ints(vals)
-            if cls == 'ListOffsetArray64':
+            if cls.startswith('ListOffsetArray'):
                 o = [ev(x) for x in info['offs']]
-                prog += 'listoffset64 %s ' % fullnative.ints(o)
+                prog += 'listoffset%s %s ' % (info['width'], fullnative.ints(o))
                 exp += [vals[o[i]:o[i + 1]] for i in range(len(o) - 1)]
-            elif cls == 'ListArray64':
+            elif cls.startswith('ListArray'):
                 s = [ev(x) for x in info['starts']]
                 e = [a + L for a, L in zip(s, info['lens'])]
-                prog += 'list64 %d %s %s ' % (len(s), ' '.join(map(str, s)), ' '.join(map(str, e)))
+                prog += 'list%s %d %s %s ' % (info['width'], len(s), ' '.join(map(str, s)), ' '.join(map(str, e)))
                 exp += [vals[a:b] for a, b in zip(s, e)]
             else:
                 prog += 'regular %d %d ' % (info['size'], info['length'])
@@ -3058,8 +3098,10 @@ def h_list_mergemany(specs):
 def jobs_list_merge(tier):
     LO, LA, RA = 'ListOffsetArray64', 'ListArray64', 'RegularArray'
     q = [((LO, (1, 2)), (LA, (2, 0))), ((LA, (2, 1)), (RA, (2, 2)), (LO, (1,))), ((RA, (2, 1)), (RA, (2, 2))), ((RA, (1, 2)), (LO, (0, 2)), (LA, (1,))), ((LO, (2,)), (RA, (0, 2)), (LA, (1,)))]
+    q += [(('ListArray32', (2, 1)), ('ListOffsetArrayU32', (1, 2)), (LA, (1,))), (('ListOffsetArray32', (1, 2)), ('ListArrayU32', (0, 2)), ('ListOffsetArray32', (2,))), ((LO, (2,)), ('ListArray32', (1, 1)), ('ListArrayU32', (2,)))]
     if tier != 'quick':
-        q += [((LA, (1, 0, 2)), (LA, (2,)), (LO, (1, 1))), ((LO, (0,)), (RA, (3, 1)), (RA, (1, 2))), ((RA, (2, 2)), (LA, (0, 3)), (RA, (2, 1)))]
+        q += [(('ListArrayU32', (1,)), (RA, (2, 2)), ('ListOffsetArrayU32', (0, 1))), (('ListOffsetArrayU32', (2, 0)), ('ListOffsetArray32', (1,))), ((RA, (1, 2)), ('ListArray32', (2,)), ('ListOffsetArray32', (1, 1))),
+              ((LA, (1, 0, 2)), (LA, (2,)), (LO, (1, 1))), ((LO, (0,)), (RA, (3, 1)), (RA, (1, 2))), ((RA, (2, 2)), (LA, (0, 3)), (RA, (2, 1)))]
     return [(h_list_mergemany, (s,), 1800) for s in q]
 
 
@@ -3897,9 +3939,9 @@ def h_bytemask(cls, pattern, variant):
     n = len(pattern)
     short, src = OPTION_CLASSES[cls]
     nc = NodeCtx(['IA', 'BMA', 'BIT', 'UMA', 'IDX', 'CNT', 'UTL', 'KD', 'IDS'], [], unwind=max(10, 2 * n + 24))
-    if cls == 'IndexedOptionArray64':
-        this, idx = build_option64(nc, pattern)
-        head = lambda model: 'option64 %s ' % fullnative.ints([model.eval(x, model_completion=True).as_signed_long() for x in idx])
+    if cls in ('IndexedOptionArray64', 'IndexedOptionArray32'):
+        this, idx = build_option64(nc, pattern) if cls.endswith('64') else build_indexed(nc, cls, pattern, nc.content0, nc.lencontent, 'node')
+        head = lambda model: 'option%s %s ' % (cls[-2:], fullnative.ints([model.eval(x, model_completion=True).as_signed_long() for x in idx]))
     elif cls == 'ByteMaskedArray':
         this, mk = build_bytemasked(nc, pattern, variant)
         head = lambda model: 'bytemask %s %d ' % (fullnative.ints([model.eval(x, model_completion=True).as_signed_long() for x in mk]), 1 if variant else 0)
@@ -3925,7 +3967,7 @@ def h_bytemask(cls, pattern, variant):
 
     def replay(model, ent):
         lc = max(model.eval(nc.lencontent, model_completion=True).as_signed_long(), n)
-        if cls == 'IndexedOptionArray64':
+        if cls.startswith('IndexedOptionArray'):
             lc = max([lc] + [model.eval(x, model_completion=True).as_signed_long() + 1 for x in idx])
         if lc > 100:
             return False, 'content too long to replay', {}
@@ -3945,6 +3987,7 @@ def jobs_bytemask(tier):
     pats = [(0, 1, 0), (1, 0, 0, 1, 1, 0, 0, 1, 1), (0, 0)] if tier == 'quick' else [p for k in (1, 2, 3) for p in itertools.product((0, 1), repeat=k)] + [(1, 0, 0, 1, 1, 0, 0, 1, 1), (0,) * 8 + (1,), (1,) * 9]
     for p in pats:
         js.append((h_bytemask, ('IndexedOptionArray64', p, None), 900))
+        js.append((h_bytemask, ('IndexedOptionArray32', p, None), 900))
         for vw in (True, False):
             js.append((h_bytemask, ('ByteMaskedArray', p, vw), 900))
         for vw, lsb in itertools.product((True, False), repeat=2):
